@@ -24,6 +24,8 @@ where
     crate::c12::fam_v::<B>(run);
     crate::c12::fam_d::<B>(run);
     crate::c12::fam_arena::<B>(run);
+    crate::c08::fam_big_scratch::<B>(run);
+    crate::c11::fam_ringv::<B>(run);
     crate::c11::fam_hist::<B>(run);
     crate::c07::fam_large::<B>(run);
 }
@@ -81,7 +83,7 @@ pub fn replay(run: &mut Run, d: &Value) {
 
 fn route(run: &mut Run, d: &Value) {
     let fam = d["family"].as_str().unwrap_or("").to_string();
-    if fam.starts_with("hal_") || fam.starts_with("scratch_arena") {
+    if fam.starts_with("hal_") || fam.starts_with("scratch_arena") || fam.starts_with("big_normalize_scratch") || fam.starts_with("ring_ops") {
         crate::c12::replay(run, d);
     } else if fam.starts_with("histories") {
         crate::c11::replay(run, d);
